@@ -1,5 +1,6 @@
 import PgsVerif.Model.Proto
 import PgsVerif.Model.CleanName
+import PgsVerif.Model.NameSplit
 /-
   JSON glue: one `Engine` per correspondence.  Only decoding/encoding lives here; every function
   called is the very definition the theorems in `PgsVerif/Props` are about.
@@ -50,7 +51,44 @@ def engine : Engine :=
   mkEngine (I := In) (O := Bytes) run (fun _ => true) (fun _ _ => none)
 end FP
 
+/-! ### C15 name splitting -/
+namespace C15
+structure ImgEntry where
+  p : Runes
+  t : Runes
+  u : Runes
+  l : Runes
+deriving FromJson, ToJson
+
+structure In where
+  s : Bytes            -- the Go string (bytes); used by the harness only
+  name : Runes         -- the runes Go's range loop yields
+  up : List Nat        -- runes of the name that are IsUpper || IsTitle
+  dg : List Nat        -- runes of the name that are IsDigit
+  img : List ImgEntry  -- strings.Title / ToUpper / ToLower of candidate parts
+deriving FromJson, ToJson
+
+structure ObsJ where
+  parts : List Runes
+  conv : List Runes
+deriving FromJson, ToJson, BEq
+
+def missing : Runes := [0xFFFFFF]
+
+def In.img' (i : In) (f : Nat) (p : Runes) : Runes :=
+  if f = 0 then p
+  else match i.img.find? (·.p == p) with
+    | none => missing
+    | some e => if f = 1 then e.t else if f = 2 then e.u else e.l
+
+def engine : Engine :=
+  mkEngine (I := In) (O := ObsJ)
+    (fun i => let o := model (i.up.contains ·) (i.dg.contains ·) i.img' i.name; ⟨o.parts, o.conv⟩)
+    (fun i => classOK (i.up.contains ·) (i.dg.contains ·) i.name)
+    (fun i o => judge (i.up.contains ·) (i.dg.contains ·) i.img' i.name ⟨o.parts, o.conv⟩)
+end C15
+
 def engines : List (String × Engine) :=
-  [ ("c11", C11.engine), ("fp", FP.engine) ]
+  [ ("c11", C11.engine), ("fp", FP.engine), ("c15", C15.engine) ]
 
 end Pgs
